@@ -53,11 +53,12 @@ AbsCallsOf == [sig \in AllSigs |-> AbsCalls(sig)]
 MenuOf     == [sig \in BaseSigs |-> MenuFor(sig)]
 Menu(sig)  == MenuOf[sig]
 
-\* keys of the memo machine on f(a, b='db'): f(1) f(a=1) f(a=1, b=2) f(7) f('quiet') -> None | f(1, 2) f(1, b=2)
+\* keys of the memo machine on f(a, b='db'): f(1) f(a=1) f(a=1, b=2) f('quiet') -> None, and f(-1) f(-2): two
+\* distinct combinations whose hashes happen to be equal in CPython | f(1, 2) f(1, b=2)
 MemoSig  == S(2, 1, FALSE, FALSE)
 Key(ps, ks) == [pos |-> ps, kw |-> ks]
 MemoKeys == {Key(<<VInt(1)>>, <<>>), Key(<<>>, <<<<"a", VInt(1)>>>>), Key(<<>>, <<<<"a", VInt(1)>>, <<"b", VInt(2)>>>>),
-             Key(<<VInt(7)>>, <<>>), Key(<<Quiet>>, <<>>)}
+             Key(<<Quiet>>, <<>>), Key(<<VInt(-1)>>, <<>>), Key(<<VInt(-2)>>, <<>>)}
             \cup (IF Wide THEN {Key(<<VInt(1), VInt(2)>>, <<>>), Key(<<VInt(1)>>, <<<<"b", VInt(2)>>>>)} ELSE {})
 
 SeqsUpTo(Z, n) == UNION {[1..m -> Z] : m \in 0..n}
